@@ -401,7 +401,7 @@ impl Prop for ReproProp {
         vec!["interferer_shifted_a_symbol_id", "history_with_rewrite_iteration", "history_with_match_list", "noise_thread_replica_run"]
     }
     fn rule(&self) -> String {
-        "Every history (ordered sequence) of the stated length over insert / union / rewrite-iteration / ematch / extract operations on the Symbol-carrying Arith language is executed, EACH EXECUTION IN ITS OWN PROCESS, under every placement of 2 (thorough: 1, 2 and 3) interning actions of a second real thread into the gaps between the operations (lock-step hand-shake over channels, so the schedule is chosen, not left to the OS; the interned strings are brute-forced to land in the same symbol-table shard as the history's symbols, so that the symbols' numeric ids really change) and under three replica kinds: main thread, fresh thread, fresh thread next to two free-running noise threads doing unrelated e-graph work and interning. All transcripts of one history (returned invocations, match lists, extracted terms, class ids, slots, e-nodes, progress, next fresh slot, EGraph::dump() output; in the `expl` configuration also explanation strings) must be byte-identical. Non-trivial = histories with at least one union or rewrite.".into()
+        "Every history (ordered sequence) of the stated length over insert / union / rewrite-iteration / ematch / extract operations on the Symbol-carrying Arith language is executed, EACH EXECUTION IN ITS OWN PROCESS, under every placement of 2 (thorough: 1, 2 and 3) interning actions of a second real thread into the gaps between the operations (lock-step hand-shake over channels, so the schedule is chosen, not left to the OS; the interned strings are brute-forced to land in the same symbol-table shard as the history's symbols, so that the symbols' numeric ids really change; each action also makes slots of every kind and builds and merges classes in an e-graph of its own) and under three replica kinds: main thread, fresh thread, fresh thread next to two free-running noise threads doing unrelated e-graph work and interning. All transcripts of one history (returned invocations, match lists, extracted terms, class ids, slots, e-nodes, progress, next fresh slot, EGraph::dump() output; in the `expl` configuration also explanation strings) must be byte-identical. Non-trivial = histories with at least one union or rewrite.".into()
     }
     fn assumptions(&self) -> Vec<String> {
         vec![
